@@ -14,6 +14,8 @@ TB = ("trusted base: the go/ast rewriter (validated by ./check passthrough: go-s
 CHECKS = {
  "C01": ("exploration", "4 C01", "deterministic simulation: simulated reader (chooser-sized chunks, EOF/injected error at any offset) x independent WHATWG reference interpreter, both entry points, every single cut point for short streams",
          "seeded exploration of byte streams x segmentations x endings x entry points (Read, Connection) against an independent reference interpreter that is blind to segmentation; minimised replay on violation. Sampling, so evidence not proof."),
+ "C20": ("exploration", "4 C20", "simulated counting reader over endless generators and streams sized within 2 bytes of 4 KiB / 64 KiB / the configured limit, chooser-sized chunks; bytes pulled beyond the last completed event vs. the limit, delivered events vs. the reference interpreter",
+         "seeded exploration of limits, entry points, buffer settings, sizes and chunkings; no panic, bounded read-ahead, never a truncated event, everything below the limit delivered."),
  "C03": ("exploration", "4 C03", "deterministic simulation: seeded scheduler over real Joe (instrumented copy, synctest bubble), Put-order witness + per-subscriber window oracle",
          "seeded search over interleavings of Publish/Subscribe/cancel/Shutdown (every select order, map order and task choice from one PRNG) with an exact oracle: each subscriber's Send sequence must be the topic-filtered contiguous slice of Joe's serialisation order from its acceptance point, reaching every message published before its cancellation."),
  "C04": ("exploration", "4 C04", "deterministic simulation: seeded scheduler over real Joe + real Finite/ValidReplayer, replay||live sequence vs Put-order witness",
@@ -36,6 +38,10 @@ CHECKS = {
          "seeded search over Backoff settings and attempt histories on simulated time (minute-long waits cost microseconds); waits, counts, resets, server retry overrides and MaxElapsedTime are compared with a reference recurrence written from the field documentation."),
  "C13": ("exploration", "4 C13", "deterministic simulation: subscriber tasks add/remove callbacks while the Connection dispatches chunk-by-chunk under the seeded scheduler (lock hooks); must / may / must-not sets per (callback, event)",
          "seeded search over subscription histories and interleavings with dispatch. The data-race clause of C13 is NOT decided (no -race build of the simulated binary is run; see DESIGN.md): only routing, at-most-once, order and never-after-unsubscribe are."),
+ "C15": ("fault_enumeration", "4 C15", "fault enumeration with a simulated writer: the fault-free encoding's Write calls are recorded, then every Write is failed in turn after 0 / 1 / len-1 / a drawn number of accepted bytes; fault-free round trip and encoding identity on the same messages",
+         "for each generated message the set of failure points (every Write call x accepted-byte counts) is enumerated completely; messages themselves are sampled from generated public-API call sequences. Thin simulator dimension (a failing writer), stated as such."),
+ "C16": ("fault_enumeration", "4 C16", "fault enumeration with a recording, fault-injecting http.ResponseWriter of every shape: each position of the fault-free Write/Flush call log is failed in turn; ServeHTTP against a recording Provider",
+         "for each generated Send/Flush sequence every failure position of the writer's call log is enumerated; sequences, messages, writer shapes, header values and OnSession results are sampled. Thin simulator dimension, stated as such."),
  "C17": ("exploration", "4 C17", "deterministic simulation with fault injection: subscriber failures, Put/Replay errors and panics at chosen calls; C03 oracle for the healthy subscribers",
          "seeded search over schedules and fault plans with at least one healthy subscriber; healthy subscribers must still get their exact window, Put errors must be what Publish returns, nothing may reach the replayer after it panicked."),
  "C18": ("exploration", "4 C18", "simulated histories + reflective reachability walk from the replayer value compared with the model's live set",
